@@ -1,0 +1,103 @@
+//go:build verif
+// +build verif
+
+package evm
+
+import (
+	"sort"
+	"time"
+
+	"github.com/dappledger/AnnChain/eth/common"
+	"github.com/dappledger/AnnChain/gemmill/types"
+)
+
+// Read-only projections and test knobs for the model-based checks in /verif (build tag "verif").
+// Nothing here is compiled into a production binary.
+
+// VerifSetValidateRoutines sets the number of signature-checking goroutines used by
+// exeWithCPUParallelVeirfy (production value: runtime.NumCPU()) and returns the previous value.
+func VerifSetValidateRoutines(n int) int {
+	old := validateRoutineCount
+	validateRoutineCount = n
+	return old
+}
+
+// VerifPoolTx identifies one pooled transaction.
+type VerifPoolTx struct {
+	Nonce uint64
+	Hash  common.Hash
+}
+
+// VerifPoolView is a snapshot of the transaction pool taken under its lock.
+type VerifPoolView struct {
+	Pending      map[common.Address][]VerifPoolTx
+	Waiting      map[common.Address][]VerifPoolTx
+	Beats        []common.Address
+	All          []common.Hash
+	Ext          []types.Tx
+	Broadcast    []types.Tx
+	PendingLimit int
+	WaitingLimit int
+	Height       int64
+}
+
+func verifFlatten(m map[common.Address]*txSortedMap) map[common.Address][]VerifPoolTx {
+	out := make(map[common.Address][]VerifPoolTx, len(m))
+	for a, sm := range m {
+		l := make([]VerifPoolTx, 0, len(sm.items))
+		for n, tx := range sm.items {
+			l = append(l, VerifPoolTx{Nonce: n, Hash: tx.Hash()})
+		}
+		sort.Slice(l, func(i, j int) bool { return l[i].Nonce < l[j].Nonce })
+		out[a] = l
+	}
+	return out
+}
+
+// VerifPoolView returns the current content of the application's transaction pool.
+func (app *EVMApp) VerifPoolView() VerifPoolView {
+	tp := app.pool
+	tp.Lock()
+	defer tp.Unlock()
+	v := VerifPoolView{
+		Pending:      verifFlatten(tp.pending),
+		Waiting:      verifFlatten(tp.waiting),
+		PendingLimit: tp.pendingLimit,
+		WaitingLimit: tp.waitingLimit,
+		Height:       tp.height,
+	}
+	for a := range tp.waitingBeats {
+		v.Beats = append(v.Beats, a)
+	}
+	for h := range tp.all {
+		v.All = append(v.All, h)
+	}
+	for e := tp.extTxs.Front(); e != nil; e = e.Next() {
+		v.Ext = append(v.Ext, e.Value.(types.Tx))
+	}
+	for e := tp.broadcastQueue.Front(); e != nil; e = e.Next() {
+		v.Broadcast = append(v.Broadcast, e.Value.(*types.TxInPool).Tx)
+	}
+	return v
+}
+
+// VerifPoolSetLimits overrides the pool's size limits (production: block_size*10 each).
+func (app *EVMApp) VerifPoolSetLimits(pending, waiting int) {
+	app.pool.Lock()
+	app.pool.pendingLimit = pending
+	app.pool.waitingLimit = waiting
+	app.pool.Unlock()
+}
+
+// VerifPoolSetLifetime overrides the idle time after which the eviction loop drops an account's
+// non-executable transactions (production: 10 minutes).
+func (app *EVMApp) VerifPoolSetLifetime(d time.Duration) {
+	app.pool.Lock()
+	app.pool.waitingLifeTime = d
+	app.pool.Unlock()
+}
+
+// VerifVolatile reports the lengths of the per-block accumulators that feed ReceiptsHash.
+func (app *EVMApp) VerifVolatile() (receipts, kvs, histories int) {
+	return len(app.receipts), len(app.kvs), len(app.keyValueHistories)
+}
